@@ -27,7 +27,8 @@ import valuegen  # noqa: E402
 from valuegen import type_sig  # noqa: E402
 
 REPO = os.environ.get("VERIF_REPO", "/repo")
-META = valuegen.Meta.load([os.path.join(REPO, "generator", "lsp.json")])
+MODEL_FILES = args[args.index("--model") + 1:] if "--model" in args else [os.path.join(REPO, "generator", "lsp.json")]
+META = valuegen.Meta.load(MODEL_FILES)
 CONV = converters.get_converter()
 
 
